@@ -10,6 +10,6 @@ CONSTANTS
   ReadNs = {2}
   SeekOn = FALSE
   TrackHist = TRUE
-  FixSeekGap = FALSE
-  KFSeekGap = TRUE
+  FixSeekGap = TRUE
+  KFSeekGap = FALSE
 INVARIANTS Window Bounds NoEarlyEof LowMarkKept EmptyOnlyAtEnd SeekContent TaintOnlyBySeekGap Emit
